@@ -1211,11 +1211,11 @@ func (p *queryPlan) Execute(ctx context.Context) (*table.Table, error) {
 	if err := p.projectAndGroupBy(); err != nil {
 		return nil, err
 	}
-	p.orderBy()
-	err := p.having()
-	if err != nil {
+	// HAVING decides which rows qualify; only those are ordered and limited.
+	if err := p.having(); err != nil {
 		return nil, err
 	}
+	p.orderBy()
 	p.limit()
 	if p.tbl.NumRows() == 0 {
 		// Correct the bindings.
